@@ -184,6 +184,10 @@ func ValidateUpdate(n *UpdateStatement) Object {
 			return newError("invalid infix action")
 		}
 
+		if errObj := validateUpdateTarget(action); isError(errObj) {
+			return errObj
+		}
+
 		if errObj := validateUpdateOperand(action.Left); isError(errObj) {
 			return errObj
 		}
@@ -200,6 +204,26 @@ func ValidateUpdate(n *UpdateStatement) Object {
 	return nil
 }
 
+// validateUpdateTarget checks that an action addresses what the evaluator lets it address: SET and
+// REMOVE an attribute or a document path, ADD and DELETE a top-level attribute
+func validateUpdateTarget(action *ActionExpression) Object {
+	switch action.Left.(type) {
+	case *Identifier:
+		return nil
+	case *IndexExpression:
+		switch action.Token.Type {
+		case ADD:
+			return newError("ADD can only be used on top-level attributes, not nested attributes: %s", action.Left.String())
+		case DELETE:
+			return newError("DELETE can only be used on top-level attributes, not nested attributes: %s", action.Left.String())
+		}
+
+		return nil
+	}
+
+	return newError("invalid assignation to: %s", action.String())
+}
+
 // validateUpdateOperand checks the target or the value of an update action
 func validateUpdateOperand(exp Expression) Object {
 	switch node := exp.(type) {
@@ -208,14 +232,32 @@ func validateUpdateOperand(exp Expression) Object {
 	case *IndexExpression:
 		return validatePath(node)
 	case *InfixExpression:
+		if node.Operator != "+" && node.Operator != "-" {
+			return newError("unknown operator: %s", node.Operator)
+		}
+
 		if errObj := validateUpdateOperand(node.Left); isError(errObj) {
 			return errObj
 		}
 
 		return validateUpdateOperand(node.Right)
 	case *CallExpression:
-		if fn := evalFunctionCallIdentifer(node, nil); isError(fn) {
+		fn := evalFunctionCallIdentifer(node, nil)
+		if isError(fn) {
 			return fn
+		}
+
+		funcObj, ok := fn.(*Function)
+		if !ok {
+			return newError("invalid function call; expression: " + node.String())
+		}
+
+		if !funcObj.ForUpdate {
+			return newError("the function is not allowed in an update expression; function: " + funcObj.Name)
+		}
+
+		if len(node.Arguments) != funcObj.Arity {
+			return newError("incorrect number of operands for operator or function; function: %s, number of operands: %d", funcObj.Name, len(node.Arguments))
 		}
 
 		for _, arg := range node.Arguments {
